@@ -83,16 +83,27 @@ RECURSIVE SumS(_, _)
 SumS(s, i) == IF i > Len(s) THEN 0 ELSE s[i] + SumS(s, i + 1)
 
 ConsumedCoin(t)  == SumF(t.ins, "c", 1) + SumS(t.wds, 1) + Refunds(t.pp, t.certs)
-ConsumedAsset(t) == IF HasAssets(t.era) THEN SumF(t.ins, "a", 1) + t.mint ELSE 0
+\* two assets "a" and "b" (under one policy id): each is a component of its own
+MintOf(t, x)        == IF x = "a" THEN t.mint ELSE t.mintb
+ConsumedAsset(t, x) == IF HasAssets(t.era) THEN SumF(t.ins, x, 1) + MintOf(t, x) ELSE 0
 ProducedCoin(t)  == SumF(t.outs, "c", 1) + t.fee + Deposits(t.pp, t.certs)
                     + (IF HasGov(t.era) THEN t.nprop * t.pp.gov + t.don ELSE 0)
-ProducedAsset(t) == IF HasAssets(t.era) THEN SumF(t.outs, "a", 1) ELSE 0
+ProducedAsset(t, x) == IF HasAssets(t.era) THEN SumF(t.outs, x, 1) ELSE 0
 
-Accept(t) == ConsumedCoin(t) = ProducedCoin(t) /\ ConsumedAsset(t) = ProducedAsset(t)
+Accept(t) == /\ ConsumedCoin(t) = ProducedCoin(t)
+             /\ ConsumedAsset(t, "a") = ProducedAsset(t, "a")
+             /\ ConsumedAsset(t, "b") = ProducedAsset(t, "b")
+
+\* what a validator that confuses the two assets would accept (NOT the rule): only
+\* the sum over both assets balances.  Used to generate and to recognise the cases
+\* that separate per-asset conservation from it.
+MergedAccept(t) == /\ ConsumedCoin(t) = ProducedCoin(t)
+                   /\ ConsumedAsset(t, "a") + ConsumedAsset(t, "b")
+                        = ProducedAsset(t, "a") + ProducedAsset(t, "b")
 
 ----------------------------------------------------------------------------
 (* The grid: values 0..3, 1..2 inputs, 0..2 outputs, 0..2 withdrawals, mint  *)
-(* -3..3 of one asset, donation 0..3, 0..2 proposals, deposits 1..3, a       *)
+(* -3..3 of each of two assets under one policy, donation 0..3, 0..2 proposals, deposits 1..3, a       *)
 (* certificate multiset of the era's kinds.  It is far too large to          *)
 (* enumerate (> 10^10 per era), so for every certificate multiset PerBag     *)
 (* base transactions are drawn with a hash of (Seed, era, multiset, j) and   *)
@@ -126,6 +137,9 @@ Base(e, bag, j, l) ==
         nOut  == Rnd(l, 2, 3)
         nWd   == Rnd(l, 4, 3)
         ast(f) == IF HasAssets(e) THEN Rnd(l, f, 4) ELSE 0
+        \* the second asset is absent in half of the places
+        bst(f) == IF HasAssets(e) /\ Rnd(l, f, 6) < 4 THEN Rnd(l, f, 6) ELSE 0
+        mb     == Rnd(l, 75, 13)
     IN [ era   |-> e,
          bag   |-> bag,
          j     |-> j,
@@ -135,11 +149,12 @@ Base(e, bag, j, l) ==
                      pool |-> 1 + Rnd(l, 9, 3),
                      drep |-> IF HasGov(e) THEN 1 + Rnd(l, 60, 3) ELSE 0,
                      gov  |-> IF HasGov(e) THEN 1 + Rnd(l, 61, 3) ELSE 0 ],
-         ins   |-> [i \in 1..nIn  |-> [c |-> Rnd(l, 10 + i, 4), a |-> ast(20 + i)]],
-         outs  |-> [i \in 1..nOut |-> [c |-> Rnd(l, 30 + i, 4), a |-> ast(40 + i)]],
+         ins   |-> [i \in 1..nIn  |-> [c |-> Rnd(l, 10 + i, 4), a |-> ast(20 + i), b |-> bst(80 + i)]],
+         outs  |-> [i \in 1..nOut |-> [c |-> Rnd(l, 30 + i, 4), a |-> ast(40 + i), b |-> bst(90 + i)]],
          fee   |-> Rnd(l, 3, 4),
          wds   |-> [i \in 1..nWd |-> Rnd(l, 50 + i, 4)],
          mint  |-> IF HasAssets(e) THEN Rnd(l, 5, 7) - 3 ELSE 0,
+         mintb |-> IF HasAssets(e) /\ mb < 7 THEN mb - 3 ELSE 0,
          don   |-> IF HasGov(e) THEN Rnd(l, 6, 4) ELSE 0,
          nprop |-> IF HasGov(e) THEN Rnd(l, 7, 3) ELSE 0 ]
 
@@ -148,12 +163,13 @@ Max2(a, b) == IF a >= b THEN a ELSE b
 \* close the gap with one extra output and/or one extra input
 Balanced(t) ==
     LET dc == ConsumedCoin(t) - ProducedCoin(t)
-        da == ConsumedAsset(t) - ProducedAsset(t)
-        so == [c |-> Max2(dc, 0), a |-> Max2(da, 0)]
-        si == [c |-> Max2(0 - dc, 0), a |-> Max2(0 - da, 0)]
+        da == ConsumedAsset(t, "a") - ProducedAsset(t, "a")
+        db == ConsumedAsset(t, "b") - ProducedAsset(t, "b")
+        so == [c |-> Max2(dc, 0), a |-> Max2(da, 0), b |-> Max2(db, 0)]
+        si == [c |-> Max2(0 - dc, 0), a |-> Max2(0 - da, 0), b |-> Max2(0 - db, 0)]
     IN [t EXCEPT !.var  = "bal",
-                 !.outs = IF so.c > 0 \/ so.a > 0 THEN Append(@, so) ELSE @,
-                 !.ins  = IF si.c > 0 \/ si.a > 0 THEN Append(@, si) ELSE @]
+                 !.outs = IF so.c > 0 \/ so.a > 0 \/ so.b > 0 THEN Append(@, so) ELSE @,
+                 !.ins  = IF si.c > 0 \/ si.a > 0 \/ si.b > 0 THEN Append(@, si) ELSE @]
 
 \* one-unit perturbations of a single term; each unbalances a balanced transaction
 Tweaks(e) == <<"fee", "in_coin", "wd", "out_coin">>
@@ -165,12 +181,26 @@ Tweak(t, w) ==
       [] w = "in_coin"   -> [u EXCEPT !.ins[1].c = @ + 1]
       [] w = "in_asset"  -> [u EXCEPT !.ins[1].a = @ + 1]
       [] w = "wd"        -> [u EXCEPT !.wds = Append(@, 1)]
-      [] w = "out_coin"  -> [u EXCEPT !.outs = Append(@, [c |-> 1, a |-> 0])]
-      [] w = "out_asset" -> [u EXCEPT !.outs = Append(@, [c |-> 0, a |-> 1])]
+      [] w = "out_coin"  -> [u EXCEPT !.outs = Append(@, [c |-> 1, a |-> 0, b |-> 0])]
+      [] w = "out_asset" -> [u EXCEPT !.outs = Append(@, [c |-> 0, a |-> 1, b |-> 0])]
       [] w = "mint_up"   -> [u EXCEPT !.mint = @ + 1]
       [] w = "mint_down" -> [u EXCEPT !.mint = @ - 1]
       [] w = "donation"  -> [u EXCEPT !.don = @ + 1]
       [] w = "proposal"  -> [u EXCEPT !.nprop = @ + 1]
+
+\* a balanced transaction in which one unit changes its asset: asset "a" goes in (or
+\* is minted) and asset "b" comes out, or the other way round.  Only the sum over
+\* both assets balances, so the rule must reject it.
+Merges == <<"a_to_b", "b_to_a", "mint_a_out_b", "mint_b_out_a">>
+Merge(t, w) ==
+    LET u    == [t EXCEPT !.var = "merge_" \o w]
+        outA == [c |-> 0, a |-> 1, b |-> 0]
+        outB == [c |-> 0, a |-> 0, b |-> 1]
+    IN
+    CASE w = "a_to_b"       -> [u EXCEPT !.ins[1].a = @ + 1, !.outs = Append(@, outB)]
+      [] w = "b_to_a"       -> [u EXCEPT !.ins[1].b = @ + 1, !.outs = Append(@, outA)]
+      [] w = "mint_a_out_b" -> [u EXCEPT !.mint = @ + 1, !.outs = Append(@, outB)]
+      [] w = "mint_b_out_a" -> [u EXCEPT !.mintb = @ + 1, !.outs = Append(@, outA)]
 
 PerBag(e) == IF HasGov(e) THEN PerBagGov ELSE PerBagLegacy
 
@@ -181,6 +211,7 @@ Variants(e, bag, j) ==
         tw == Tweaks(e)
         w  == tw[1 + Rnd(l, 70, Len(tw))]
     IN {b, bb, Tweak(bb, w)}
+       \cup (IF HasAssets(e) THEN {Merge(bb, Merges[1 + Rnd(l, 71, Len(Merges))])} ELSE {})
 
 Cases ==
     UNION { UNION { Variants(e, bag, j) : bag \in CertBags(Len(Kinds(e))), j \in 1..PerBag(e) } : e \in Eras }
@@ -197,18 +228,28 @@ VariantSane ==
     /\ (c.var = "bal" => Accept(c))
     /\ (c.var \notin {"free", "bal"} => ~Accept(c))
 
+\* per-asset conservation is strictly stronger than conservation of the asset total:
+\* the "merge" variants balance only when the two assets are confused
+PerAssetNotMerged ==
+    /\ (Accept(c) => MergedAccept(c))
+    /\ (c.var \in {"merge_" \o w : w \in Range(Merges)} => MergedAccept(c) /\ ~Accept(c))
+
 \* adding the same amount q to both sides preserves the verdict (q varies with the case)
 AddBothSides ==
     LET ok == Accept(c)
         q  == 1 + (c.j % 3)
     IN
     /\ ok <=> Accept([c EXCEPT !.fee = @ + q, !.ins[1].c = @ + q])
-    /\ ok <=> Accept([c EXCEPT !.wds = Append(@, q), !.outs = Append(@, [c |-> q, a |-> 0])])
+    /\ ok <=> Accept([c EXCEPT !.wds = Append(@, q), !.outs = Append(@, [c |-> q, a |-> 0, b |-> 0])])
     /\ HasAssets(c.era) =>
-          /\ ok <=> Accept([c EXCEPT !.ins[1].a = @ + q, !.outs = Append(@, [c |-> 0, a |-> q])])
-          /\ ok <=> Accept([c EXCEPT !.mint = @ + q, !.outs = Append(@, [c |-> 0, a |-> q])])
+          /\ ok <=> Accept([c EXCEPT !.ins[1].a = @ + q, !.outs = Append(@, [c |-> 0, a |-> q, b |-> 0])])
+          /\ ok <=> Accept([c EXCEPT !.mint = @ + q, !.outs = Append(@, [c |-> 0, a |-> q, b |-> 0])])
     /\ HasGov(c.era) =>
           ok <=> Accept([c EXCEPT !.don = @ + q, !.ins[1].c = @ + q])
+    \* asset "b" balances on its own, and a surplus of "b" never pays for a deficit of "a"
+    /\ HasAssets(c.era) =>
+          /\ ok <=> Accept([c EXCEPT !.mintb = @ + q, !.outs = Append(@, [c |-> 0, a |-> 0, b |-> q])])
+          /\ ok => ~Accept([c EXCEPT !.ins[1].a = @ + q, !.outs = Append(@, [c |-> 0, a |-> 0, b |-> q])])
 
 \* adding an amount to one side only turns an accepted transaction into a rejected one
 OneSideBreaks ==
@@ -244,8 +285,8 @@ CertAlgebra ==
 
 \* nothing but a burn is negative; a transaction that burns more than it spends is never accepted
 Signs ==
-    /\ ConsumedCoin(c) >= 0 /\ ProducedCoin(c) >= 0 /\ ProducedAsset(c) >= 0
-    /\ (ConsumedAsset(c) < 0 => ~Accept(c))
+    /\ ConsumedCoin(c) >= 0 /\ ProducedCoin(c) >= 0
+    /\ \A x \in {"a", "b"} : ProducedAsset(c, x) >= 0 /\ (ConsumedAsset(c, x) < 0 => ~Accept(c))
 
 \* the generator respects the era's feature set and the grid bounds
 EraShape ==
@@ -255,9 +296,9 @@ EraShape ==
     /\ Len(c.ins) \in 1..3 /\ Len(c.outs) \in 0..4 /\ Len(c.wds) \in 0..3
     /\ c.fee \in 0..4 /\ c.pp.key \in 1..3 /\ c.pp.pool \in 1..3
     /\ (~HasAssets(c.era) =>
-            /\ c.mint = 0
-            /\ \A i \in DOMAIN c.ins : c.ins[i].a = 0
-            /\ \A i \in DOMAIN c.outs : c.outs[i].a = 0)
+            /\ c.mint = 0 /\ c.mintb = 0
+            /\ \A i \in DOMAIN c.ins : c.ins[i].a = 0 /\ c.ins[i].b = 0
+            /\ \A i \in DOMAIN c.outs : c.outs[i].a = 0 /\ c.outs[i].b = 0)
     /\ (~HasGov(c.era) => c.don = 0 /\ c.nprop = 0 /\ c.pp.drep = 0 /\ c.pp.gov = 0)
     /\ (HasGov(c.era) => c.pp.drep \in 1..3 /\ c.pp.gov \in 1..3)
 
@@ -268,11 +309,13 @@ ASSUME Len(GovKinds) < 17 /\ Eras \subseteq Range(AllEras)
 ASSUME \A x \in 0..50 : Rnd(<<Lane1(x, 1, 2), Lane2(x, 1, 2)>>, x, 4) \in 0..3
 
 Row(t) == [ era |-> t.era, bag |-> t.bag, j |-> t.j, var |-> t.var, certs |-> t.certs, pp |-> t.pp,
-            ins |-> t.ins, outs |-> t.outs, fee |-> t.fee, wds |-> t.wds, mint |-> t.mint,
+            ins |-> t.ins, outs |-> t.outs, fee |-> t.fee, wds |-> t.wds, mint |-> t.mint, mintb |-> t.mintb,
             don |-> t.don, nprop |-> t.nprop,
             accept |-> Accept(t),
             cc |-> ConsumedCoin(t), pc |-> ProducedCoin(t),
-            ca |-> ConsumedAsset(t), pa |-> ProducedAsset(t) ]
+            ca |-> ConsumedAsset(t, "a"), pa |-> ProducedAsset(t, "a"),
+            cb |-> ConsumedAsset(t, "b"), pb |-> ProducedAsset(t, "b"),
+            merged |-> MergedAccept(t) ]
 
 ASSUME ndJsonSerialize("cases.ndjson", SetToSeq({Row(t) : t \in Cases}))
 =============================================================================
